@@ -269,3 +269,5 @@ def spec(tensor, constraints, strict):
     # ---------------- (f) the padding / emptying helpers
     from .. import helper_specs
     helper_specs.check(ctx, "C13.f", ["zeros", "full", "empty"])
+    # ---------------- (g) the owners' dt / delay / duration setters forward every new value to their records (shared with C14.c)
+    ctx.import_clauses("C14", {"C14.c"}, "C13.g", pick=lambda s: any(k in s for k in (".dt.setter", ".delay.setter", ".duration.setter")), minimum=4)
